@@ -13,6 +13,7 @@ import LianVerif.Drv.ReachDef
 import LianVerif.Drv.Events
 import LianVerif.Drv.Scope
 import LianVerif.Drv.Hoist
+import LianVerif.Drv.Termination
 
 open Lean LianVerif.Drv
 
@@ -31,6 +32,7 @@ def dispatch (j : Json) : Except String Json := do
   | "scopes" => LianVerif.Drv.Scope.handleScopes j
   | "resolver" => LianVerif.Drv.Scope.handleResolver j
   | "hoist" => LianVerif.Drv.Hoist.handle j
+  | "termination" => LianVerif.Drv.Termination.handle j
   | _ => throw s!"unknown model {m}"
 
 partial def loop (hin hout : IO.FS.Stream) : IO Unit := do
